@@ -43,6 +43,7 @@ func runC18(c *Ctx) {
 
 	sx := symx.New(c.P.IsRepoFunc)
 	c18Key(c, sx)
+	c18TagOwnership(c)
 	c18Registry(c)
 	c18Counting(c, sx)
 	c18Monitor(c, sx)
@@ -145,6 +146,106 @@ func c18Key(c *Ctx, sx *symx.Ctx) {
 		}
 	}
 	r.Analysed["map_ranges_in_key_functions"] = nLoops
+}
+
+// c18TagOwnership: the collector keeps the tag map it is given (metrics store
+// it by reference and report it), so a registered series keeps its identity
+// only if nobody writes that map afterwards. Every tags argument of a
+// registration call must be nil, or a map built by this activation whose
+// updates all precede the registration and which is handed to nothing but
+// registration calls; pass-through parameters are followed to the callers.
+func c18TagOwnership(c *Ctx) {
+	r := c.R
+	isReg := func(name string) bool {
+		if !strings.HasPrefix(name, collMeth) {
+			return false
+		}
+		switch strings.TrimPrefix(name, collMeth) {
+		case "Counter", "Gauge", "Histogram", "Timer":
+			return true
+		}
+		return false
+	}
+	regOrCtor := func(name string) bool {
+		if isReg(name) {
+			return true
+		}
+		for _, p := range []string{"NewCounter", "NewGauge", "NewHistogram", "NewHistogramWithBuckets", "NewTimer", "DefaultCounter", "DefaultGauge", "DefaultHistogram", "DefaultTimer"} {
+			if name == metricsPkg+"."+p {
+				return true
+			}
+		}
+		return false
+	}
+	cg := c.P.CallGraph()
+	n := 0
+	ord := newOrdinal()
+	var check func(v ssa.Value, site ssa.Instruction, depth int) string
+	check = func(v ssa.Value, site ssa.Instruction, depth int) string {
+		if depth > 4 {
+			return "tag map origin too deep to follow"
+		}
+		switch x := v.(type) {
+		case *ssa.Const:
+			return ""
+		case *ssa.MakeMap:
+			for _, ref := range *x.Referrers() {
+				switch u := ref.(type) {
+				case *ssa.MapUpdate:
+					if u.Map != ssa.Value(x) {
+						return "the tag map is stored inside another map"
+					}
+					if !ssau.Dominates(u, site) {
+						return "the tag map is written at " + c.P.Pos(u.Pos()) + " after (or beside) the registration that retains it"
+					}
+				case *ssa.Call:
+					nm := ssau.CallName(u)
+					if !regOrCtor(nm) && nm != "builtin.len" {
+						return "the tag map is also handed to " + shortName(nm) + ", which may keep or modify it"
+					}
+				case *ssa.Lookup, *ssa.DebugRef:
+				default:
+					return fmt.Sprintf("the tag map escapes (%T)", ref)
+				}
+			}
+			return ""
+		case *ssa.Parameter:
+			fn := x.Parent()
+			idx := -1
+			for i, p := range fn.Params {
+				if p == x {
+					idx = i
+				}
+			}
+			node := cg.Nodes[fn]
+			if node == nil {
+				return ""
+			}
+			for _, e := range node.In {
+				if e.Site == nil || !isShipped(c, e.Caller.Func) {
+					continue
+				}
+				args := e.Site.Common().Args
+				if e.Site.Common().IsInvoke() || len(args) != len(fn.Params) || idx < 0 {
+					continue
+				}
+				if why := check(args[idx], e.Site, depth+1); why != "" {
+					return why
+				}
+			}
+			return ""
+		}
+		return "the tag map is neither nil nor a map literal of the registering function: " + v.Name() + " (" + fmt.Sprintf("%T", v) + ")"
+	}
+	for _, fn := range shippedFuncs(c) {
+		for _, call := range callsMatching(fn, false, isReg) {
+			n++
+			key := ord.next(load.FuncKey(fn) + "#tags-of-" + strings.TrimPrefix(ssau.CallName(call), collMeth))
+			why := check(call.Common().Args[2], call, 0)
+			r.Check(why == "", "O-1", key, c.P.Pos(call.Pos()), "tags: nil, or a map literal completed before the registration and given to nothing else", "a registered series can change identity after the fact: "+why)
+		}
+	}
+	r.Floor("O-1", "registration calls examined for tag ownership", n, 10)
 }
 
 func isRegistryMap(t types.Type) bool {
